@@ -73,7 +73,7 @@ func c18Dirs(tier string, g *rand.Rand) [][]c18Entry {
 		[]c18Entry{{File: "00-a", Kind: "exec"}, {File: "99-z", Kind: "exec"}, {File: "notes.txt", Kind: "noexec"}, {File: "1-short", Kind: "noexec"}, {File: "bin", Kind: "dir"}},
 	)
 	names := []string{"alpha", "alpha", "beta-x", "c", "logger", "stubborn-q", "dropidle-r", "very-long-name-with-many-dashes", "x.y", "UPPER", "exitnow-p", "noreg-p", "syncfail-p", "dielater-p", "cfgfail-p"}
-	for i := 0; i < tierN(tier, 12, 300); i++ {
+	for i := 0; i < tierN(tier, 12, 1200); i++ {
 		var d []c18Entry
 		used := map[string]bool{}
 		slow := 0
